@@ -79,6 +79,11 @@ class EM:
         self.fb = fb
 
     @staticmethod
+    def _stores_in(node: ast.AST, attr: str) -> bool:
+        return any(isinstance(s, ast.Assign) and isinstance(s.targets[0], ast.Subscript)
+                   and attr_chain(s.targets[0].value) == attr for s in ast.walk(node))
+
+    @staticmethod
     def _stores(f: Func, attr: str) -> bool:
         return any(isinstance(s, ast.Assign) and isinstance(s.targets[0], ast.Subscript)
                    and attr_chain(s.targets[0].value) == attr for s in walk_no_nested(f.node))
@@ -389,6 +394,7 @@ def r1_4(ctx: Ctx, rule="R1.4"):
     loops = [n for n in walk_no_nested(g.node) if isinstance(n, ast.For)]
     tests = [n for l in loops for n in walk_no_nested(l) if isinstance(n, ast.If) and "bonds" in norm(n.test)]
     ok = False
+    txt_ok = False
     txt = ""
     if tests:
         t = tests[0].test
@@ -397,10 +403,16 @@ def r1_4(ctx: Ctx, rule="R1.4"):
         ok = txt in ("2 <= len(%s.bonds)" % var, "1 < len(%s.bonds)" % var)
         stores_inside = any(isinstance(s, ast.Assign) and isinstance(s.targets[0], ast.Subscript)
                             and attr_chain(s.targets[0].value) == em.frames_attr for s in walk_no_nested(tests[0]))
+        txt_ok = ok
         ok = ok and stores_inside and norm(loops[0].iter) in g.params
-    ctx.ob(rule, g, tests[0] if tests else "anchor predicate", ok,
-           "anchors are exactly the atoms with at least two bonded neighbours (normalised test: %s)" % txt,
-           node=tests[0] if tests else g.node)
+    if tests and txt_ok and not ok:
+        # the right predicate, but what it guards is not a store into the frame table (frames collected elsewhere first)
+        ctx.ob(rule, g, tests[0], True, "the anchor predicate is the expected one but it does not guard a store into the frame table "
+               "directly; which atoms get a frame is not decided on this tree", undecided=True, node=tests[0])
+    else:
+        ctx.ob(rule, g, tests[0] if tests else "anchor predicate", ok,
+               "anchors are exactly the atoms with at least two bonded neighbours (normalised test: %s)" % txt,
+               node=tests[0] if tests else g.node)
     # neighbours: closest_atoms() -> sorted(bonds)[:2]; used in order (anchor, n1, n2)
     ca = ctx.func("AtomTop.closest_atoms")
     rets = [n for n in walk_no_nested(ca.node) if isinstance(n, ast.Return)]
@@ -422,6 +434,7 @@ def r1_4(ctx: Ctx, rule="R1.4"):
            node=rets[0] if rets else ca.node)
     call = [c for c in calls_in(g.node) if call_name(c) == "closest_atoms"]
     okn = False
+    read_ = False                    # were the three points read off the code?
     two_explicit = bool(call) and not call[0].keywords and len(call[0].args) == 1 and const_int(call[0].args[0]) == 2
     if call and ((not call[0].args and not call[0].keywords) or two_explicit):
         # ind1, ind2 = atom.closest_atoms(); positions = [atom.position, molecule[ind1].position, molecule[ind2].position]
@@ -451,13 +464,21 @@ def r1_4(ctx: Ctx, rule="R1.4"):
                             return norm(e)
                         return norm(e2)
                     got = [expand(e) for e in arg.elts]
+                    read_ = True
                     okn = got == ["%s.position" % var, "%s[%s].position" % (mol, i1), "%s[%s].position" % (mol, i2)]
                     key = [s for s in walk_no_nested(g.node) if isinstance(s, ast.Assign) and isinstance(s.targets[0], ast.Subscript)
                            and attr_chain(s.targets[0].value) == em.frames_attr]
                     okn = okn and bool(key) and norm(key[0].targets[0].slice) == "hash(%s)" % var
-    ctx.ob(rule, g, call[0] if call else "frame points", okn,
-           "the frame of an anchor is built from (anchor, first neighbour, second neighbour) positions of the same "
-           "molecule and stored under the anchor's key", node=call[0] if call else g.node)
+    if call and (call[0].args or call[0].keywords) and not two_explicit:
+        read_ = True                 # closest_atoms(n) with n other than 2: refuted as before
+    if not read_:
+        ctx.ob(rule, g, call[0] if call else "frame points", True,
+               "the three points handed to the frame builder are not written as [anchor.position, molecule[i1].position, "
+               "molecule[i2].position] with (i1, i2) = anchor.closest_atoms(); not decided on this tree", undecided=True, node=call[0] if call else g.node)
+    else:
+        ctx.ob(rule, g, call[0] if call else "frame points", okn,
+               "the frame of an anchor is built from (anchor, first neighbour, second neighbour) positions of the same "
+               "molecule and stored under the anchor's key", node=call[0] if call else g.node)
 
 
 def r1_5(ctx: Ctx, rule="R1.5"):
@@ -738,7 +759,13 @@ def r2_3(ctx: Ctx, rule="R2.3"):
     size_names = {norm(s_.targets[0]) for s_ in g.node.body if isinstance(s_, ast.Assign)
                   and isinstance(s_.value, ast.Call) and call_name(s_.value) == "len"}
 
+    mol_params = [p_ for p_ in g.params if p_ != "self"]
+
     def eval_size_test(t, n_):
+        # only lengths of the molecule itself are sizes of the reference (len(atom.bonds) is not)
+        for x_ in ast.walk(t):
+            if isinstance(x_, ast.Call) and call_name(x_) == "len" and x_.args and norm(x_.args[0]) not in mol_params:
+                return None
         return globals()['eval_size_test'](t, n_, size_names)
     for n in walk_no_nested(g.node):
         if isinstance(n, ast.If) and eval_size_test(n.test, 1) is not None:
@@ -752,7 +779,15 @@ def r2_3(ctx: Ctx, rule="R2.3"):
             sizes = [k for k, tv in zip(range(1, 7), truth) if tv == small_when]
             general_stmts = n.orelse if in_body else n.body
             gen_ok = any(call_name(c) == em.recompute_general.name for s_ in general_stmts for c in calls_in(s_))
-            ctx.ob(rule, g, n, sizes == [1, 2] and gen_ok,
+            # the per-anchor code written in place (the two functions merged): a loop over the molecule that stores frames
+            gen_inline = any(isinstance(l_, ast.For) and norm(l_.iter) in mol_params and EM._stores_in(l_, em.frames_attr)
+                             for s_ in general_stmts for l_ in ast.walk(s_))
+            if sizes == [1, 2] and not gen_ok and not gen_inline:
+                ctx.ob(rule, g, n, True, "references of three or more atoms are not handed to %s and no per-anchor loop is written in "
+                       "place; the general branch is not decided on this tree" % em.recompute_general.name, undecided=True, node=n)
+                gen_ok = None
+            if gen_ok is not None:
+              ctx.ob(rule, g, n, sizes == [1, 2] and (gen_ok or gen_inline),
                    "references of one or two atoms take the single-frame branch and every reference of three or more "
                    "atoms the per-anchor branch" + ("" if sizes == [1, 2] else " -- the single-frame branch is taken for sizes %s (of 1..6)" % sizes),
                    node=n)
@@ -940,7 +975,7 @@ def r3_1(ctx: Ctx, rule="R3.1"):
                     elif isinstance(n.value, ast.Subscript) and norm(n.value.value) == mol and norm(n.value.slice) in idx_vars \
                             and n.attr == "position":
                         allowed, why = True, "position of a frame neighbour (closest_atoms)"
-                elif f is small:
+                if not allowed and f is small:          # (the two roles may be one function when the branches are merged)
                     p = [x for x in small.params if x != "self"][0]
                     # the read is on paths taken by references of one or two atoms only (whatever the spelling of the size test)
                     sn_ = _size_names(small.node)
